@@ -177,12 +177,12 @@ func (r result) String() string {
 
 func runSPS(nalu []byte, beyond bool) (r result) {
 	p := hx.Try(func() {
-		s, err := avc.ParseSPSNALUnit(hx.Exact(nalu), beyond)
+		s, err := avc.ParseSPSNALUnit(in(nalu), beyond)
 		if err != nil {
 			r = result{outcome: "err", errStr: err.Error()}
 			return
 		}
-		r = result{outcome: "ok", f: flatSPS(s)}
+		r = okResult(func() *flat { return flatSPS(s) })
 	})
 	if p != "" {
 		r = result{outcome: "panic", errStr: p}
@@ -245,12 +245,12 @@ func flatPPS(p *avc.PPS) *flat {
 
 func runPPS(nalu []byte, arg string) (r result) {
 	p := hx.Try(func() {
-		s, err := avc.ParsePPSNALUnit(hx.Exact(nalu), spsMapOf(arg))
+		s, err := avc.ParsePPSNALUnit(in(nalu), spsMapOf(arg))
 		if err != nil {
 			r = result{outcome: "err", errStr: err.Error()}
 			return
 		}
-		r = result{outcome: "ok", f: flatPPS(s)}
+		r = okResult(func() *flat { return flatPPS(s) })
 	})
 	if p != "" {
 		r = result{outcome: "panic", errStr: p}
@@ -295,11 +295,11 @@ func mapsOf(arg string) (map[uint32]*avc.SPS, map[uint32]*avc.PPS) {
 		k, v, _ := strings.Cut(op, ":")
 		switch k {
 		case "S":
-			if s, err := avc.ParseSPSNALUnit(hx.UnHex(v), true); err == nil {
+			if s, err := avc.ParseSPSNALUnit(in(hx.UnHex(v)), true); err == nil {
 				spsMap[s.ParameterID] = s
 			}
 		case "P":
-			if p, err := avc.ParsePPSNALUnit(hx.UnHex(v), spsMap); err == nil {
+			if p, err := avc.ParsePPSNALUnit(in(hx.UnHex(v)), spsMap); err == nil {
 				ppsMap[p.PicParameterSetID] = p
 			}
 		case "DS":
@@ -368,12 +368,12 @@ func flatSlice(h *avc.SliceHeader) *flat {
 func runSlice(nalu []byte, arg string) (r result) {
 	p := hx.Try(func() {
 		spsMap, ppsMap := mapsOf(arg)
-		h, err := avc.ParseSliceHeader(hx.Exact(nalu), spsMap, ppsMap)
+		h, err := avc.ParseSliceHeader(in(nalu), spsMap, ppsMap)
 		if err != nil {
 			r = result{outcome: "err", errStr: err.Error()}
 			return
 		}
-		r = result{outcome: "ok", f: flatSlice(h)}
+		r = okResult(func() *flat { return flatSlice(h) })
 	})
 	if p != "" {
 		r = result{outcome: "panic", errStr: p}
@@ -442,28 +442,33 @@ func runConf(arg string) (r result) {
 	}
 	spss, ppss, incl := unhexList(parts[0]), unhexList(parts[1]), parts[2] == "1"
 	p := hx.Try(func() {
-		d, err := avc.CreateAVCDecConfRec(spss, ppss, incl)
+		d, err := avc.CreateAVCDecConfRec(inList(spss), inList(ppss), incl)
 		if err != nil {
 			r = result{outcome: "err", errStr: err.Error()}
 			return
 		}
-		f := &flat{}
-		flatConfRec(f, "created", d)
-		if enc, ok := flatEncode(f, "created", d); ok {
-			dec, err := avc.DecodeAVCDecConfRec(hx.Exact(enc))
-			if err != nil {
-				f.u("decoded.ok", 0)
-			} else {
-				f.u("decoded.ok", 1)
-				flatConfRec(f, "decoded", &dec)
-			}
-		}
+		var sps *avc.SPS
 		if len(spss) > 0 {
-			if sps, err := avc.ParseSPSNALUnit(spss[0], false); err == nil {
+			sps, _ = avc.ParseSPSNALUnit(spss[0], false)
+		}
+		r = okResult(func() *flat {
+			f := &flat{}
+			flatConfRec(f, "created", d)
+			if enc, ok := flatEncode(f, "created", d); ok {
+				checkEncodeAVC(d, enc)
+				dec, err := avc.DecodeAVCDecConfRec(hx.Exact(enc))
+				if err != nil {
+					f.u("decoded.ok", 0)
+				} else {
+					f.u("decoded.ok", 1)
+					flatConfRec(f, "decoded", &dec)
+				}
+			}
+			if sps != nil {
 				flatBytes(f, "codec", []byte(avc.CodecString("avc1", sps)))
 			}
-		}
-		r = result{outcome: "ok", f: f}
+			return f
+		})
 	})
 	if p != "" {
 		r = result{outcome: "panic", errStr: p}
@@ -474,15 +479,19 @@ func runConf(arg string) (r result) {
 // runConfD: DecodeAVCDecConfRec on arbitrary bytes; the record, its Size and its re-encoding.
 func runConfD(data []byte) (r result) {
 	p := hx.Try(func() {
-		d, err := avc.DecodeAVCDecConfRec(hx.Exact(data))
+		d, err := avc.DecodeAVCDecConfRec(inView(data))
 		if err != nil {
 			r = result{outcome: "err", errStr: err.Error()}
 			return
 		}
-		f := &flat{}
-		flatConfRec(f, "decoded", &d)
-		flatEncode(f, "decoded", &d)
-		r = result{outcome: "ok", f: f}
+		r = okResult(func() *flat {
+			f := &flat{}
+			flatConfRec(f, "decoded", &d)
+			if enc, ok := flatEncode(f, "decoded", &d); ok {
+				checkEncodeAVC(&d, enc)
+			}
+			return f
+		})
 	})
 	if p != "" {
 		r = result{outcome: "panic", errStr: p}
@@ -789,12 +798,14 @@ func isOffsetField(name string) bool {
 
 func search(cases []caseLine) {
 	evals := 0
-	for _, c := range cases {
+	base := make([]string, len(cases)) // projected answer of every case (valid or mutated) on its first run
+	for i, c := range cases {
+		r := runCase(c)
+		base[i] = r.String()
 		if c.exp == "-" {
 			continue
 		}
 		evals++
-		r := runCase(c)
 		site := siteOf(c.kind)
 		wit := c.kind + " arg=" + c.arg + " nalu=" + c.nalu
 		if r.outcome != "ok" {
@@ -851,6 +862,7 @@ func search(cases []caseLine) {
 		}
 		fmt.Fprintf(out, "FAIL\t%s\t%s\t%s\t%s\n", site, class, wit, desc)
 	}
+	evals += hygiene(cases, base) // cross-cutting oracles: hygiene.go
 	fmt.Fprintf(out, "EVALS\t%d\n", evals)
 }
 
